@@ -141,6 +141,14 @@ def solo_of(prog, ix):
     return p
 
 
+def _map_leaves(s, bmap):
+    if s.get("xs"):
+        return {"g": s["g"], "n": s["n"], "xs": [_map_leaves(x, bmap) for x in s["xs"]]}
+    if s["g"] == "F" and s["n"] in bmap:
+        return {"g": "F", "n": bmap[s["n"]], "xs": []}
+    return s
+
+
 def normalise_subtrace(ev):
     """events of one computation of a session, with batch ids and exception uids renumbered from scratch"""
     bmap, umap, bcount = {}, {}, {}
@@ -151,8 +159,14 @@ def normalise_subtrace(ev):
             k = e["a"]
             bcount[k] = bcount.get(k, 0) + 1
             bmap[e["b"]] = k * 1000 + bcount[k]
-        if "b" in e and e["e"] in ("NewBatch", "NewItem", "Before", "After", "FlushBegin", "FlushEnd", "BatchDone", "Prio"):
+        if "b" in e and e["e"] in ("NewBatch", "NewItem", "Before", "After", "FlushBegin", "FlushEnd", "BatchDone", "Prio", "CancelBegin"):
             e["b"] = bmap.get(e["b"], e["b"])
+        if e["e"] == "Done" and e["a"] in bmap:          # a batch is a future too
+            e["a"] = bmap[e["a"]]
+        if e["e"] == "SegEnd" and "s" in e:
+            e["s"] = _map_leaves(e["s"], bmap)
+        if e["e"] == "SegBegin" and e.get("xs"):
+            e["xs"] = [bmap.get(x, x) for x in e["xs"]]
         if e.get("u"):
             if e["u"] not in umap:
                 umap[e["u"]] = len(umap) + 1
